@@ -141,6 +141,10 @@ def run(ctx):
             raise Undecided("simulation of the asynchronous spec reported %s" % (rS.violations or rS.errors)[:1])
         tot["transitions"] += rS.generated
         scheds = cc.sim_to_scheds(ctx, ctx.spec_copy(), "pre" + tag)
+        pre = cc.load_prefixes(powers, byz3)
+        for k, a in enumerate(pre):           # each goal prefix three times: the suffix' Byzantine interference is seeded per run
+            for rep in range(3):
+                scheds.append({"id": 300000 + 10 * k + rep, "steps": a["steps"]})
         n3 = len(powers)
         inp = {"mode": "replay", "powers": powers, "byz": byz3, "maxround": 14, "scheds": scheds, "synctail": True,
                "syncmax": 2 * n3, "byzafter": True, "random": 60 if quick else 3000, "randlen": 70}
@@ -148,7 +152,8 @@ def run(ctx):
         v = cc.validate(ctx, rows, info3, byz3, 14, tag, dedupe=True)
         account(v, rows, "3+1 " + tag)
         cov["configs"].append({"config": "3 correct + 1 Byzantine (%s), powers %s: asynchronous prefixes + synchronous suffix" % (byz3[0], powers),
-                               "prefixes_from_tlc_simulation": len(scheds), "driver": stats,
+                               "prefixes_from_tlc_simulation": len(scheds) - 3 * len(pre),
+                               "goal_prefixes": [a["name"] for a in pre], "driver": stats,
                                "events_validated_after_prefix_dedupe": v["events"]})
 
     hist = {}
